@@ -84,6 +84,9 @@ func (e *Env) lit(v *big.Int, want string) Term {
 }
 
 func (e *Env) resolveType(name string) types.Type {
+	if strings.HasPrefix(name, "*") {
+		return types.NewPointer(e.resolveType(name[1:]))
+	}
 	switch name {
 	case "Int":
 		return types.Typ[types.Int]
@@ -815,6 +818,9 @@ func (e *Env) evalCall(n *Node, want string) Term {
 }
 
 func typeArg(n *Node) string {
+	if n.Op == "un" && n.Name == "*" {
+		return "*" + typeArg(n.Args[0])
+	}
 	if n.Op == "id" {
 		return n.Name
 	}
